@@ -153,6 +153,22 @@ func cmdCheck(argv []string) int {
 				unitKeys[key] = true
 			}
 		}
+		// methods checked against an interface method contract that carries clauses of this property
+		for _, ik := range fc.Refines {
+			if j := strings.LastIndex(key, "."); j >= 0 {
+				if ifc, ok := p.CS.Funcs["("+ik+")"+key[j:]]; ok {
+					tags := clauseTags(ifc)
+					if tags[*prop] {
+						unitKeys[key] = true
+					}
+					for _, at := range ps.AlsoTags {
+						if tags[at] {
+							unitKeys[key] = true
+						}
+					}
+				}
+			}
+		}
 		// implementations of a type contract that carries clauses of this property
 		for _, im := range fc.Implements {
 			if tfc, ok := p.CS.Types[im]; ok && clauseTags(tfc)[*prop] {
